@@ -7,6 +7,7 @@ package main
 import (
 	"math/rand"
 	"strings"
+	"time"
 
 	"github.com/onheap/eval"
 )
@@ -28,15 +29,49 @@ func lexRec(cc *eval.Config, s string) M {
 	return M{"out": "ok", "toks": ts}
 }
 
+var fmtHangs int
+
 func fmtLine(id int, s string, infixCC, prefixCC *eval.Config) M {
 	rec := M{"fam": "layout", "for": "C14", "kind": "fmt", "id": id, "src": s, "text": abstract(s)}
 	var f1, f2 string
-	p := safely(func() M {
-		f1 = eval.IndentByParentheses(s)
-		f2 = eval.IndentByParentheses(f1)
-		return nil
-	})
-	if p != nil {
+	// watchdog: a formatter that does not return within 5 s on three attempts is a hang (the spinning goroutines are
+	// abandoned; after three hanging inputs the formatter is no longer called in this run)
+	type fres struct {
+		p      M
+		f1, f2 string
+	}
+	var p M
+	hung := false
+	if fmtHangs >= 3 {
+		hung = true
+	}
+	for attempt := 0; attempt < 3 && !hung; attempt++ {
+		ch := make(chan fres, 1)
+		go func() {
+			var a, b string
+			pp := safely(func() M {
+				a = eval.IndentByParentheses(s)
+				b = eval.IndentByParentheses(a)
+				return nil
+			})
+			ch <- fres{pp, a, b}
+		}()
+		select {
+		case r := <-ch:
+			p, f1, f2 = r.p, r.f1, r.f2
+			attempt = 3
+		case <-time.After(5 * time.Second):
+			if attempt == 2 {
+				hung = true
+				fmtHangs++
+			}
+		}
+	}
+	if hung {
+		rec["fout"] = "hang"
+		rec["f1"], rec["f2"] = []interface{}{}, []interface{}{}
+		f1, f2 = s, s
+	} else if p != nil {
 		rec["fout"] = "panic"
 		rec["f1"], rec["f2"] = []interface{}{}, []interface{}{}
 	} else {
@@ -144,12 +179,34 @@ func relayouts(r *rand.Rand, src string) []M {
 		return ""
 	}) + " ; trailing, no newline"})
 	// formatter output, once and three times
-	p := safely(func() M {
-		f1 := eval.IndentByParentheses(src)
-		out = append(out, M{"how": "format1", "text": f1})
-		out = append(out, M{"how": "format3", "text": eval.IndentByParentheses(eval.IndentByParentheses(f1))})
-		return nil
-	})
+	var p M
+	done := make(chan M, 1)
+	go func() {
+		var o []M
+		pp := safely(func() M {
+			f1 := eval.IndentByParentheses(src)
+			o = append(o, M{"how": "format1", "text": f1})
+			o = append(o, M{"how": "format3", "text": eval.IndentByParentheses(eval.IndentByParentheses(f1))})
+			return nil
+		})
+		if pp == nil {
+			pp = M{"ok": o}
+		}
+		done <- pp
+	}()
+	if fmtHangs >= 3 {
+		p = M{"t": "to"}
+	} else {
+		select {
+		case p = <-done:
+			if o, ok := p["ok"]; ok {
+				out = append(out, o.([]M)...)
+				p = nil
+			}
+		case <-time.After(15 * time.Second):
+			p = M{"t": "to"} // (the fmt line of the same source records the hang)
+		}
+	}
 	if p != nil {
 		// the formatter panicked: recorded as a re-layout that cannot be compiled (the fmt line of the
 		// same source records the panic itself)
